@@ -111,9 +111,31 @@ static long n_multi(long (*cb)(long, unsigned), long a, unsigned b, int times)
   simsched::yield("guest");
   return (long)(acc & 0x7fffffffUL);
 }
+// a library that keeps the callback it was given and calls it later, from an entry point that takes only a scalar
+static thread_local long (*t_stored_cb)(long, unsigned) = nullptr;
+static void n_store(long (*cb)(long, unsigned))
+{
+  t_stored_cb = cb;
+}
+static long n_fire(long a)
+{
+  simsched::yield("guest");
+  return t_stored_cb ? t_stored_cb(a, 9u) : -1;
+}
+static thread_local uint32_t t_stored_idx = 0;
+extern "C" {
+void g_store(long (*cb)(long, unsigned));
+long g_fire(long a);
+}
 template<int LIB>
 struct G
 {
+  static void store(uint32_t idx) { t_stored_idx = idx; }
+  static int32_t fire(int32_t a)
+  {
+    SIM_YIELD("guest");
+    return SimSbx::guest_call<int32_t, int32_t, uint32_t>(t_stored_idx, a, 9u);
+  }
   static int32_t multi(uint32_t idx, int32_t a, uint32_t b, int32_t times)
   {
     uint32_t acc = 0;
@@ -144,10 +166,11 @@ enum Kind
   T_SHARED_REG,
   T_SHARED_UNREG,
   T_DYLIB,
+  T_STORED_CB,
   K_COUNT
 };
 static const char* kKind[] = { "create", "destroy", "ptr_roundtrip", "register", "unregister", "invoke_cb", "invoke_id", "malloc_free", "yield",
-                               "shared_register", "shared_unregister", "dylib_instance" };
+                               "shared_register", "shared_unregister", "dylib_instance", "stored_callback_fired_later" };
 
 // per-thread record of what callbacks saw
 struct CbSeen
@@ -211,6 +234,9 @@ struct BTt<SimSbx>
     return sb.invoke_sandbox_function(g_multi, owner, a, b, times).UNSAFE_unverified();
   }
   static int lib_id(rlbox::rlbox_sandbox<SimSbx>& sb) { return sb.invoke_sandbox_function(g_lib_id).UNSAFE_unverified(); }
+  template<class O>
+  static void store(rlbox::rlbox_sandbox<SimSbx>& sb, O& owner) { sb.invoke_sandbox_function(g_store, owner); }
+  static long fire(rlbox::rlbox_sandbox<SimSbx>& sb, long a) { return sb.invoke_sandbox_function(g_fire, a).UNSAFE_unverified(); }
   static long expect_acc(long a, int times)
   {
     uint32_t acc = 0;
@@ -229,6 +255,15 @@ struct BTt<NoopSbx>
     return sb.template INTERNAL_invoke_with_func_ptr<decltype(n_multi)>("n_multi", reinterpret_cast<void*>(&n_multi), owner, a, b, times).UNSAFE_unverified();
   }
   static int lib_id(rlbox::rlbox_sandbox<NoopSbx>&) { return -1; }
+  template<class O>
+  static void store(rlbox::rlbox_sandbox<NoopSbx>& sb, O& owner)
+  {
+    sb.template INTERNAL_invoke_with_func_ptr<decltype(n_store)>("n_store", reinterpret_cast<void*>(&n_store), owner);
+  }
+  static long fire(rlbox::rlbox_sandbox<NoopSbx>& sb, long a)
+  {
+    return sb.template INTERNAL_invoke_with_func_ptr<decltype(n_fire)>("n_fire", reinterpret_cast<void*>(&n_fire), a).UNSAFE_unverified();
+  }
   static long expect_acc(long a, int times)
   {
     unsigned long acc = 0;
@@ -465,6 +500,38 @@ static void thread_body(int tid, const std::vector<Op>& ops, ThreadResult& R)
         }
         break;
       }
+      case T_STORED_CB: {
+        if (!s.created || !s.own)
+          break;
+        seen.clear();
+        long a = 100 + (long)((uint64_t)op.a[2] % 5000);
+        long got = 0;
+        // optionally fired from inside a callback of the thread's other sandbox
+        SB& other = S[1 - (uint64_t)op.a[1] % 2];
+        bool from_other = (op.a[4] & 1) && other.created && other.own;
+        Outcome o = attempt([&] {
+          BTt<Sbx>::store(*s.sb, *s.own);
+          simsched::yield("between_store_and_fire");
+          if (from_other) {
+            nested = [&] { got = BTt<Sbx>::fire(*s.sb, a); };
+            BTt<Sbx>::multi(*other.sb, *other.own, 3, 1u, 1);
+            nested = nullptr;
+          } else
+            got = BTt<Sbx>::fire(*s.sb, a);
+        });
+        nested = nullptr;
+        c.probe("callback_stored_by_the_library_and_fired_by_a_scalar_only_entry_point");
+        if (o != OK) {
+          viol("invoke_with_callback_fails@stored_callback_fired_later", g_last_abort_msg.c_str());
+          break;
+        }
+        // the stored callback ran exactly once, for sandbox s (after the other sandbox's body when fired from there)
+        size_t want = from_other ? 2 : 1;
+        const CbSeen* mine = seen.size() == want ? &seen[want - 1] : nullptr;
+        if (!mine || mine->sandbox != s.sb.get() || mine->a != a || got != a % 1000)
+          viol("callback_saw_wrong_sandbox_or_values@stored_callback_fired_later", "a callback kept by the library ran with another sandbox reference, other arguments, or not exactly once");
+        break;
+      }
       case T_DYLIB: {
         if (tid > 3)
           break;
@@ -565,11 +632,11 @@ struct ThreadsWorld : World
     int shared = r.chance(1, 3) ? (r.chance(1, 3) ? 2 : 1) : 0; // 1: shared sim sandbox, 2: shared noop sandbox (registration only)
     p.cfg = { nthreads, bias, mix, (int64_t)(r.next() >> 2), (int64_t)r.below(2), shared };
     int n = (int)r.range(6, thorough ? 60 : 36);
-    std::vector<unsigned> w = { 10, 6, 12, 6, 3, 10, 5, 4, 2, (unsigned)(shared ? 16 : 0), (unsigned)(shared ? 10 : 0), (unsigned)(r.chance(1, 2) ? 8 : 0) };
+    std::vector<unsigned> w = { 10, 6, 12, 6, 3, 10, 5, 4, 2, (unsigned)(shared ? 16 : 0), (unsigned)(shared ? 10 : 0), (unsigned)(r.chance(1, 2) ? 8 : 0), 5 };
     if (shared && r.chance(1, 2)) {
       // swarm mode "registration focus": (almost) nothing but registrations and releases on the shared sandbox, so that
       // several threads are inside register_callback / unregister_callback of the same function at the same time
-      w = { 0, 0, 1, 0, 0, 1, 0, 0, 2, 20, 16, 0 };
+      w = { 0, 0, 1, 0, 0, 1, 0, 0, 2, 20, 16, 0, 0 };
       n = (int)r.range(20, thorough ? 90 : 60);
     }
     // every thread starts by creating a sandbox
@@ -631,7 +698,15 @@ struct ThreadsWorld : World
       g_regions.clear();
       g_next_inst_id = 900000;
       shared_sb = std::make_unique<SharedSandbox>();
+      // half of the runs: fewer entry points (2) than functions in the pool (3), so that registrations are refused and
+      // rolled back while other threads register
+      int keep_slots = SimSbx::cfg.slots;
+      if (sseed & 1) {
+        SimSbx::cfg.slots = 2;
+        c.probe("shared_sandbox_with_fewer_entries_than_functions");
+      }
       shared_sb->create_sandbox(0);
+      SimSbx::cfg.slots = keep_slots;
       g_shared = shared_sb.get();
     }
     simsched::init(sseed, nthreads, bias, 200000);
@@ -793,8 +868,8 @@ struct ThreadsWorld : World
 
 int main(int argc, char** argv)
 {
-  libs().push_back({ { "g_multi", (void*)&G<0>::multi }, { "g_lib_id", (void*)&G<0>::lib_id } });
-  libs().push_back({ { "g_lib_id", (void*)&G<1>::lib_id }, { "g_multi", (void*)&G<1>::multi } });
+  libs().push_back({ { "g_multi", (void*)&G<0>::multi }, { "g_lib_id", (void*)&G<0>::lib_id }, { "g_store", (void*)&G<0>::store }, { "g_fire", (void*)&G<0>::fire } });
+  libs().push_back({ { "g_fire", (void*)&G<1>::fire }, { "g_lib_id", (void*)&G<1>::lib_id }, { "g_store", (void*)&G<1>::store }, { "g_multi", (void*)&G<1>::multi } });
   install_crash_handlers("replays");
   install_segv_handler();
   ThreadsWorld w;
